@@ -996,7 +996,9 @@ class ManifestRecursiveLoader:
                         if e.tag == 'IGNORE':
                             continue
                         # otherwise, make sure we have all checksums
+                        # (this modifies the preserved entry)
                         out[fullpath][1].checksums.update(e.checksums)
+                        self.updated_manifests.add(out[fullpath][0])
                         # and drop the duplicate
                         entries_to_remove.append(e)
                     else:
